@@ -231,3 +231,6 @@ class Mailbox:
     S4.upon(rx_message_theirs, enter=S4, outputs=[])
     S4.upon(rx_message_ours, enter=S4, outputs=[])
     S4.upon(close, enter=S4, outputs=[])
+    # the application can close() from the callback that the Nameplate's
+    # rx_claimed runs just before it tells us the mailbox
+    S4.upon(got_mailbox, enter=S4, outputs=[])
